@@ -10,12 +10,13 @@ Open Scope Z_scope.
 
 (** Between MULTI and EXEC a command is only queued: the reply is QUEUED and nothing but
     the issuing connection's queue changes - no database, tracker, other connection,
-    log.  (Transaction control and AUTH are the commands not queued.) *)
+    log.  (Only the five transaction-control commands are not queued, since 51742a5:
+    AUTH, PUBLISH, (P)SUBSCRIBE, (P)UNSUBSCRIBE, MONITOR and REPLCONF are queued like the rest.) *)
 Theorem c07_queue_inert :
   forall now s c cn nm rest oracle,
   zlookup c (s_conns s) = Some cn -> authed_or_open s cn = true -> c_intx cn = true ->
   let command := upper (trim nm) in
-  mem_name command tx_not_queued = false -> beq command (bs "AUTH") = false ->
+  mem_name command tx_not_queued = false ->
   process_frame now s c (FArray (FBulk nm :: rest)) oracle =
     (FSimple (bs "QUEUED"),
      set_conn s c (with_tx cn true (c_queue cn ++ [FBulk nm :: rest]) (c_watched cn))).
@@ -26,28 +27,40 @@ Proof. exact queue_inert. Qed.
 Theorem c07_exec :
   forall now s c cn, c_intx cn = true ->
   h_exec now s c cn =
-    if existsb (fun kb => was_modified_since now s (c_db cn) (fst kb) (snd kb)) (c_watched cn)
+    if watch_violated now s cn
     then (FNullArray, set_conn s c (clear_tx cn))
-    else match exec_queue now (set_conn s c (clear_tx cn)) (c_db cn) (c_queue cn) [] with
+    else match exec_queue now (set_conn s c (clear_tx cn)) c (c_db cn) (c_queue cn) [] with
          | (reps, s2) => (FArray reps, s2) end.
 Proof. exact exec_spec. Qed.
 
 (** The queue runs in order, each command in the state its predecessors left ... *)
 Theorem c07_in_order :
-  forall now dbi parts q s acc,
-  exec_queue now s dbi (parts :: q) acc =
+  forall now c dbi parts q s acc,
+  beq (queued_name parts) (bs "SELECT") = false ->
+  exec_queue now s c dbi (parts :: q) acc =
   match normal_command now s 0 dbi parts None with
-  | (rep, s1) => exec_queue now s1 dbi q (rep :: acc)
+  | (rep, s1) => exec_queue now s1 c dbi q (rep :: acc)
   end.
 Proof. exact exec_queue_cons. Qed.
+(** ... a queued SELECT runs for the connection that sent EXEC and the commands after it run
+    in the database it selected, exactly as when the commands are sent directly (1ecc022) ... *)
+Theorem c07_in_order_select :
+  forall now c dbi parts q s acc,
+  beq (queued_name parts) (bs "SELECT") = true ->
+  exec_queue now s c dbi (parts :: q) acc =
+  match normal_command now s c dbi parts None with
+  | (rep, s1) => exec_queue now s1 c (match zlookup c (s_conns s1) with Some cn => c_db cn | None => dbi end) q (rep :: acc)
+  end.
+Proof. exact exec_queue_select. Qed.
 (** ... every queued command gets exactly one reply slot: an error fills its slot and
     does not stop the commands after it ... *)
 Theorem c07_one_slot_each :
-  forall now dbi q s acc reps s',
-  exec_queue now s dbi q acc = (reps, s') -> length reps = (length acc + length q)%nat.
+  forall now c q s dbi acc reps s',
+  exec_queue now s c dbi q acc = (reps, s') -> length reps = (length acc + length q)%nat.
 Proof. exact exec_queue_length. Qed.
 (** ... and each does exactly what the same command does when sent directly on that
-    connection (the connection id matters to SELECT only: known class select-in-multi). *)
+    connection (the connection id matters to SELECT only, which EXEC therefore runs for the
+    connection itself: [c07_in_order_select]). *)
 Theorem c07_same_as_direct :
   forall now s c dbi parts oracle, beq (cmd_name parts) (bs "SELECT") = false ->
   normal_command now s c dbi parts oracle = normal_command now s 0 dbi parts oracle.
@@ -55,13 +68,13 @@ Proof. exact conn_id_irrelevant. Qed.
 
 (** Serial equivalence: EXEC produces exactly the replies and the final state that the
     connection would get by sending the queued commands itself, one after the other, with no
-    other client in between - for every queue of commands MULTI accepts (SELECT excepted:
-    known class select-in-multi), every state, every time. *)
+    other client in between - for every queue of commands that run through
+    process_normal_command with the placeholder id ([plain_queued]), every state, every time. *)
 Theorem c07_exec_is_back_to_back :
   forall now c q s cn acc,
   c <> 0 -> zlookup c (s_conns s) = Some cn -> authed_or_open s cn = true -> c_intx cn = false ->
   forallb plain_queued q = true ->
-  exec_queue now s (c_db cn) q acc = direct_run now s c q acc.
+  exec_queue now s c (c_db cn) q acc = direct_run now s c q acc.
 Proof. exact exec_is_back_to_back. Qed.
 
 (** DISCARD drops the queue and the watched keys; no data is touched. *)
@@ -83,12 +96,8 @@ Theorem c07_tables :
   tx_not_queued = [bs "MULTI"; bs "EXEC"; bs "DISCARD"; bs "WATCH"; bs "UNWATCH"].
 Proof. vm_compute. reflexivity. Qed.
 
-(** known finding tx-immediate: these commands are dispatched before the queueing test and
-    therefore execute immediately inside MULTI (PUBLISH reaches subscribers before EXEC) *)
-Example c07_tx_immediate_refuted :
-  tx_immediate = [bs "MULTI"; bs "EXEC"; bs "DISCARD"; bs "WATCH"; bs "UNWATCH"; bs "PUBLISH";
-                  bs "SUBSCRIBE"; bs "UNSUBSCRIBE"; bs "PSUBSCRIBE"; bs "PUNSUBSCRIBE"; bs "AUTH";
-                  bs "REPLCONF"; bs "MONITOR"].
+(** 51742a5: no command is dispatched ahead of the queueing test any more *)
+Theorem c07_nothing_runs_immediately : tx_immediate = [].
 Proof. vm_compute. reflexivity. Qed.
 
 (** non-vacuity: a transaction with a failing command in the middle *)
